@@ -872,7 +872,7 @@ func randomSrv(r *rand.Rand, rotation bool) c12Srv {
 	if r.Intn(4) != 0 {
 		s.Scopes = subsetOf(r, scopeUniverse, 1)
 	}
-	s.OpenIDRequired = r.Intn(5) == 0
+	s.OpenIDRequired = r.Intn(3) == 0
 	switch r.Intn(4) {
 	case 0:
 		s.SubTypes = []string{"public", "pairwise"}
@@ -1104,12 +1104,12 @@ func (g *c12Gen) deviate(d []Member) ([]Member, string) {
 	r, s := g.R, g.srv
 	other := func(u, l []string) string {
 		o := notIn(u, l)
-		if len(o) == 0 || r.Intn(4) == 0 {
+		if len(o) == 0 || r.Intn(6) == 0 {
 			return "bogus"
 		}
 		return pick(r, o)
 	}
-	switch r.Intn(24) {
+	switch pick(r, []int{0, 0, 1, 1, 2, 2, 2, 3, 4, 5, 5, 6, 6, 7, 7, 7, 8, 9, 10, 11, 12, 12, 13, 14, 15, 16, 17, 18, 19, 20, 21, 22, 23, 24, 24, 25, 25, 26}) {
 	case 0:
 		gl, _ := getM(d, "grant_types")
 		return setM(d, "grant_types", jArr(append(append([]string{}, gl.L...), other([]string{gCC, gAC, gImpl, gRefresh, gCiba, "urn:ietf:params:oauth:grant-type:jwt-bearer"}, s.Grants))...)), "grant_types"
@@ -1117,56 +1117,100 @@ func (g *c12Gen) deviate(d []Member) ([]Member, string) {
 		rl, _ := getM(d, "response_types")
 		return setM(d, "response_types", jArr(append(append([]string{}, rl.L...), other([]string{"code", "token", "id_token", "code id_token", "code token"}, s.respTypes()))...)), "response_types"
 	case 2:
-		return setM(d, "token_endpoint_auth_method", jStr(other(methodUniverse, s.AuthMethods))), "token_endpoint_auth_method"
+		// a method the server does not offer, with whatever else that method needs
+		m := other(methodUniverse, s.AuthMethods)
+		d = setM(d, "token_endpoint_auth_method", jStr(m))
+		switch m {
+		case "private_key_jwt", "self_signed_tls_client_auth":
+			d = setM(d, "jwks_uri", jStr("https://a.example/jwks"))
+		case "tls_client_auth":
+			d = setM(d, "tls_client_auth_san_dns", jStr("client.example"))
+		case "none":
+			gl, _ := getM(d, "grant_types")
+			var keep []string
+			for _, x := range gl.L {
+				if x != gCC && x != gCiba {
+					keep = append(keep, x)
+				}
+			}
+			d = setM(d, "grant_types", jArr(keep...))
+		}
+		return d, "token_endpoint_auth_method"
 	case 3:
-		return setM(d, "introspection_endpoint_auth_method", jStr(pick(r, methodUniverse))), "introspection_endpoint_auth_method"
+		return setM(d, "introspection_endpoint_auth_method", jStr(other(methodUniverse, s.IntroMethods))), "introspection_endpoint_auth_method"
 	case 4:
-		return setM(d, "revocation_endpoint_auth_method", jStr(pick(r, methodUniverse))), "revocation_endpoint_auth_method"
+		return setM(d, "revocation_endpoint_auth_method", jStr(other(methodUniverse, s.RevocMethods))), "revocation_endpoint_auth_method"
 	case 5:
 		sc, _ := getM(d, "scope")
 		return setM(d, "scope", jStr(strings.TrimSpace(sc.S+" "+other(scopeUniverse, s.scopeIDs())))), "scope"
 	case 6:
 		return setM(d, "subject_type", jStr(other([]string{"public", "pairwise"}, orDefault(s.SubTypes, "public")))), "subject_type"
 	case 7:
+		// CIBA with a delivery mode the server does not offer, an unknown one, or none at all
 		gl, _ := getM(d, "grant_types")
-		d = setM(d, "grant_types", jArr(append(append([]string{}, gl.L...), gCiba)...))
-		mode := pick(r, []string{"poll", "ping", "push", "", "bogus"})
+		if !has(gl.L, gCiba) {
+			d = setM(d, "grant_types", jArr(append(append([]string{}, gl.L...), gCiba)...))
+		}
+		if m := methodOf(d); m == "none" || m == "" {
+			if sm := inter([]string{"client_secret_post", "client_secret_basic"}, s.AuthMethods); len(sm) > 0 {
+				d = setM(d, "token_endpoint_auth_method", jStr(sm[0]))
+			}
+		}
+		mode := pick(r, append(notIn([]string{"poll", "ping", "push"}, s.CibaModes), "", "bogus"))
+		if r.Intn(4) == 0 {
+			mode = pick(r, []string{"poll", "ping", "push"})
+		}
 		if mode != "" {
 			d = setM(d, "backchannel_token_delivery_mode", jStr(mode))
 		}
-		if r.Intn(3) != 0 {
-			d = setM(d, "backchannel_client_notification_endpoint", jStr(pick(r, []string{"https://a.example/notify", "http://a.example/notify"})))
+		if mode == "ping" || mode == "push" || r.Intn(4) == 0 {
+			d = setM(d, "backchannel_client_notification_endpoint", jStr(pick(r, []string{"https://a.example/notify", "https://a.example/notify", "http://a.example/notify"})))
+		}
+		if r.Intn(4) == 0 {
+			d = setM(d, "backchannel_user_code_parameter", jBool(true))
 		}
 		return d, "backchannel_token_delivery_mode"
 	case 8:
 		return setM(d, "id_token_signed_response_alg", jStr(other(sigUniverse, s.IdtSigAlgs))), "id_token_signed_response_alg"
 	case 9:
-		return setM(d, "userinfo_signed_response_alg", jStr(pick(r, sigUniverse))), "userinfo_signed_response_alg"
+		return setM(d, "userinfo_signed_response_alg", jStr(other(sigUniverse, s.UiSigAlgs))), "userinfo_signed_response_alg"
 	case 10:
-		return setM(d, "request_object_signing_alg", jStr(pick(r, sigUniverse))), "request_object_signing_alg"
+		return setM(d, "request_object_signing_alg", jStr(other(sigUniverse, s.JarAlgs))), "request_object_signing_alg"
 	case 11:
-		return setM(d, "authorization_signed_response_alg", jStr(pick(r, sigUniverse))), "authorization_signed_response_alg"
+		return setM(d, "authorization_signed_response_alg", jStr(other(sigUniverse, s.JarmAlgs))), "authorization_signed_response_alg"
 	case 12:
 		p := pick(r, []string{"id_token", "userinfo", "authorization"})
-		if r.Intn(3) != 0 {
-			d = setM(d, p+"_encrypted_response_alg", jStr(pick(r, kencUniverse)))
-		}
-		if r.Intn(2) == 0 {
-			d = setM(d, p+"_encrypted_response_enc", jStr(pick(r, cencUniverse)))
+		keys, cont := map[string][]string{"id_token": s.IdtKeyAlgs, "userinfo": s.UiKeyAlgs, "authorization": s.JarmKeyAlgs}[p],
+			map[string][]string{"id_token": orDefault(s.IdtContentAlgs, "A128CBC-HS256"), "userinfo": orDefault(s.UiContentAlgs, "A128CBC-HS256"), "authorization": orDefault(s.JarmContentAlgs, "A128CBC-HS256")}[p]
+		switch r.Intn(3) {
+		case 0: // key algorithm outside the list
+			d = setM(d, p+"_encrypted_response_alg", jStr(other(kencUniverse, keys)))
+		case 1: // content algorithm outside the list, key algorithm fine when there is one
+			if len(keys) > 0 {
+				d = setM(d, p+"_encrypted_response_alg", jStr(pick(r, keys)))
+			}
+			d = setM(d, p+"_encrypted_response_enc", jStr(other(cencUniverse, cont)))
+		default: // content algorithm without key algorithm
+			d = setM(d, p+"_encrypted_response_enc", jStr(pick(r, cont)))
 		}
 		return d, p + "_encrypted_response_alg/enc"
 	case 13:
-		if r.Intn(3) != 0 {
-			d = setM(d, "request_object_encryption_alg", jStr(pick(r, kencUniverse)))
-		}
-		if r.Intn(2) == 0 {
+		switch r.Intn(3) {
+		case 0:
+			d = setM(d, "request_object_encryption_alg", jStr(other(kencUniverse, s.JarKeyAlgs)))
+		case 1:
+			if len(s.JarKeyAlgs) > 0 {
+				d = setM(d, "request_object_encryption_alg", jStr(pick(r, s.JarKeyAlgs)))
+			}
+			d = setM(d, "request_object_encryption_enc", jStr(other(cencUniverse, orDefault(s.JarContentAlgs, "A128CBC-HS256"))))
+		default:
 			d = setM(d, "request_object_encryption_enc", jStr(pick(r, cencUniverse)))
 		}
 		return d, "request_object_encryption_alg/enc"
 	case 14:
-		return setM(d, "backchannel_authentication_request_signing_alg", jStr(pick(r, sigUniverse))), "backchannel_authentication_request_signing_alg"
+		return setM(d, "backchannel_authentication_request_signing_alg", jStr(other(sigUniverse, s.CibaJarAlgs))), "backchannel_authentication_request_signing_alg"
 	case 15:
-		return setM(d, "authorization_data_types", jArr(pick(r, detailUniverse), pick(r, append(detailUniverse, "bogus")))), "authorization_data_types"
+		return setM(d, "authorization_data_types", jArr(other(detailUniverse, s.AuthDetailTypes))), "authorization_data_types"
 	case 16:
 		return setM(d, "redirect_uris", jArr(redirectsOK[0], pick(r, redirectsBad))), "redirect_uris"
 	case 17:
@@ -1181,9 +1225,13 @@ func (g *c12Gen) deviate(d []Member) ([]Member, string) {
 		}
 		return d, "tls_client_auth identifiers"
 	case 20:
-		d = setM(d, "token_endpoint_auth_method", jStr(pick(r, []string{"private_key_jwt", "client_secret_jwt"})))
+		m := pick(r, []string{"private_key_jwt", "client_secret_jwt"})
+		if sm := inter([]string{"private_key_jwt", "client_secret_jwt"}, s.AuthMethods); len(sm) > 0 {
+			m = pick(r, sm)
+		}
+		d = setM(d, "token_endpoint_auth_method", jStr(m))
 		d = setM(d, "token_endpoint_auth_signing_alg", jStr(pick(r, append(sigUniverse, "HS256", "HS512"))))
-		if r.Intn(2) == 0 {
+		if r.Intn(4) != 0 {
 			d = setM(d, "jwks_uri", jStr("https://a.example/jwks"))
 		}
 		return d, "token_endpoint_auth_signing_alg"
@@ -1194,6 +1242,56 @@ func (g *c12Gen) deviate(d []Member) ([]Member, string) {
 		gl, _ := getM(d, "grant_types")
 		d = setM(d, "grant_types", jArr(append(append([]string{}, gl.L...), gCC)...))
 		return setM(d, "token_endpoint_auth_method", jStr("none")), "client_credentials with none"
+	case 24:
+		sc, _ := getM(d, "scope")
+		var keep []string
+		for _, x := range strings.Fields(sc.S) {
+			if x != "openid" {
+				keep = append(keep, x)
+			}
+		}
+		return setM(d, "scope", jStr(strings.Join(keep, " "))), "scope without openid"
+	case 25:
+		// a well-formed CIBA registration that asks for a user code, or authenticates with none
+		gl, _ := getM(d, "grant_types")
+		if !has(gl.L, gCiba) {
+			d = setM(d, "grant_types", jArr(append(append([]string{}, gl.L...), gCiba)...))
+		}
+		mode := "poll"
+		if len(s.CibaModes) > 0 {
+			mode = pick(r, s.CibaModes)
+		}
+		d = setM(d, "backchannel_token_delivery_mode", jStr(mode))
+		if mode != "poll" {
+			d = setM(d, "backchannel_client_notification_endpoint", jStr("https://a.example/notify"))
+		}
+		if r.Intn(2) == 0 {
+			d = setM(d, "backchannel_user_code_parameter", jBool(true))
+			if m := methodOf(d); m == "none" || m == "" {
+				if sm := inter([]string{"client_secret_post", "client_secret_basic"}, s.AuthMethods); len(sm) > 0 {
+					d = setM(d, "token_endpoint_auth_method", jStr(sm[0]))
+				}
+			}
+			return d, "backchannel_user_code_parameter"
+		}
+		gl, _ = getM(d, "grant_types")
+		var keep []string
+		for _, x := range gl.L {
+			if x != gCC {
+				keep = append(keep, x)
+			}
+		}
+		d = setM(d, "grant_types", jArr(keep...))
+		return setM(d, "token_endpoint_auth_method", jStr("none")), "ciba with none"
+	case 26:
+		d = setM(d, "token_endpoint_auth_method", jStr(pick(r, []string{"self_signed_tls_client_auth", "private_key_jwt"})))
+		var keep []Member
+		for _, m := range d {
+			if m.K != "jwks" && m.K != "jwks_uri" {
+				keep = append(keep, m)
+			}
+		}
+		return keep, "key-based method without jwks"
 	default:
 		return setM(d, "response_types", jArr(pick(r, []string{"code", "token", "id_token"}))), "response_types without grant"
 	}
@@ -1508,7 +1606,7 @@ func (g *c12Gen) famMembers(k int) {
 
 func (g *c12Gen) famCaps(k int) {
 	var a *c12Client
-	for i := 0; i < 5; i++ {
+	for i := 0; i < 6; i++ {
 		d := g.validDoc()
 		why := "meant valid"
 		if i > 0 || k%2 == 0 {
@@ -1681,7 +1779,7 @@ func init() {
 		add("guard", ctx.N(26, 400))
 		add("rotation", ctx.N(16, 300))
 		add("members", ctx.N(24, 400))
-		add("caps", ctx.N(40, 600))
+		add("caps", ctx.N(56, 800))
 		add("random", ctx.N(24, 500))
 		cases := make([]c12Case, len(jobs))
 		var wg sync.WaitGroup
